@@ -235,7 +235,8 @@ func SelectAddrFromSubnet(seed []byte, net1 *net.IPNet) (net.IP, error) {
 	randBigInt.And(randBigInt, maskBigInt)
 	ipBigInt.Add(ipBigInt, randBigInt)
 
-	return net.IP(ipBigInt.Bytes()), nil
+	// big.Int.Bytes drops leading zero bytes; the address must keep its full length
+	return net.IP(ipBigInt.FillBytes(make([]byte, addrLen/8))), nil
 }
 
 func init() {
